@@ -33,6 +33,10 @@ def bad_chunk(kind, rows):
     tr = ROWS[rows]
     if kind == 'badtrail':
         return np.zeros((1,) + tr[:-1] + (tr[-1] + 1,), dtype=DT)
+    if kind == 'badtrail0':
+        return np.zeros((0,) + tr[:-1] + (tr[-1] + 1,), dtype=DT)
+    if kind == 'badzero':
+        return np.zeros((2,) + tr[:-1] + (0,), dtype=DT)
     if kind == 'badrank':
         return np.zeros((1,) + tr + (1,), dtype=DT)
     if kind == 'unconv':
@@ -139,11 +143,11 @@ def build_cases(tier):
         for start in ('empty', 'nonempty'):
             for n in (0, 1, 2, 3):
                 for pos in range(0, n + 1):
-                    for kind in ('iter-raises', 'iter-valueerror', 'badtrail', 'badrank', 'unconv'):
+                    for kind in ('iter-raises', 'iter-valueerror', 'badtrail', 'badrank', 'unconv', 'badtrail0', 'badzero'):
                         for entry in ('iterappend-list', 'iterappend-gen'):
                             cases.append({'rows': rows, 'start': start, 'entry': entry, 'nchunks': n, 'kind': kind,
                                           'position': pos})
-            for kind in ('badtrail', 'badrank', 'unconv'):
+            for kind in ('badtrail', 'badrank', 'unconv', 'badtrail0', 'badzero'):
                 cases.append({'rows': rows, 'start': start, 'entry': 'append', 'nchunks': 0, 'kind': kind, 'position': 0})
     # kernel-enforced write failure
     for rows in rowsets:
@@ -177,7 +181,7 @@ def run(tier):
         'C09', tier, 'dv.checks.c09:evaluate', cases, chunk=16, level='fault_enumeration', engine='faults',
         rule=('one deviation per execution: start {empty, non-empty} x row sizes {4 KiB rows in 1-D/2-D/3-D, 512 B rows} x '
               '0..3 chunks of 1-2 rows x failure position 0..n x kind {iterable raises a custom exception / ValueError, chunk '
-              'of wrong trailing shape, wrong rank, unconvertible element} x entry {append, iterappend(list), '
+              'of wrong trailing shape (also with zero rows / a zero extent), wrong rank, unconvertible element} x entry {append, iterappend(list), '
               'iterappend(generator)}; and kernel-enforced write failure (RLIMIT_FSIZE, SIGXFSZ ignored) at '
               + ('the offsets b-1, b, b+1, b+itemsize/2, b+itemsize, b+row/2, b+row-1, b+row, b+row+1 around every chunk '
                  'boundary b' if tier == 'quick' else 'EVERY byte offset of the growth region')
